@@ -19,11 +19,11 @@ def run(ctx):
         sel = r["sel"]
         kind = sel["mode"] + ("+insensitive" if sel["ipats"] else "") + \
             ("+negation" if any(p["neg"] for p in sel["pats"] + sel["ipats"]) else "") + \
-            ("+identical-subtrees" if r.get("built") else "") + ("/error" if r["err"] else "") + \
+            ("+identical-subtrees" if r.get("built") else "") + ("+several-snapshots-per-invocation" if r.get("invocation") else "") + ("/error" if r["err"] else "") + \
             ("/unchanged" if not r["changed"] else "")
         ctx.violate("rewrite-select/" + kind,
-                    "rewrite --%s %s i%s of snapshot {%s} -> changed=%s {%s} summary files=%s bytes=%s origkept=%s%s: not what Fn_Select!RewriteOK allows"
-                    % (sel["mode"], [pat(p) for p in sel["pats"]], [pat(p) for p in sel["ipats"]],
+                    "rewrite%s --%s %s i%s of snapshot {%s} -> changed=%s {%s} summary files=%s bytes=%s origkept=%s%s: not what Fn_Select!RewriteOK allows"
+                    % ((" (one invocation over %s)" % r["invocation"]) if r.get("invocation") else "", sel["mode"], [pat(p) for p in sel["pats"]], [pat(p) for p in sel["ipats"]],
                        ", ".join(pstr(e["p"]) + ":" + e["t"] for e in r["snap"]), r["changed"],
                        ", ".join(pstr(e["p"]) + ":" + e["t"] + ("" if e["same"] else ":ALTERED") for e in r["new"]),
                        r["sumfiles"], r["sumbytes"], r["origkept"], (" error: " + r.get("errmsg", "")) if r["err"] else ""), r)
@@ -37,4 +37,5 @@ def run(ctx):
                          "'unchanged' means: no new snapshot is written and the original keeps its tree; demanded when no entry matches or when nothing would be removed",
                          "kept entries: node JSON (metadata, content ids, link target; subtree id blanked for directories) must be identical",
                          "snapshots carry a summary as backup writes it; --forget/--dry-run are not exercised here (C26)",
+                         "invocations over 2-3 snapshots (no ids, or an id list): every selected snapshot is judged on its own by the same RewriteOK (tree, 'unchanged', summary statistics of ITS filtered tree)",
                          "trees of depth <= 3 over names {a,b,ab,A,Ab}; patterns from fixed pools plus exact entry paths"])
